@@ -21,7 +21,10 @@ PROPERTY = "C07"
 RULE = (
     "Enumerated, per kernel, over the full Cartesian grid of (unit per argument) x (dtype per argument "
     "in float64/float32/int64/int32); the thorough tier visits every grid point, the quick tier every "
-    "point of kernels with <= 3000 points and a seeded 3000-point sample of the larger ones. Each point "
+    "point of kernels with <= 3000 points and a seeded 3000-point sample (random.Random(seed), index 0 "
+    "always included) of the larger ones (gravity functions: 2000 of 3840; the three finding facets "
+    "400-600). Vector operands (beams, gravity) vary in unit only; pulse_time/tof of "
+    "time_at_sample_from_tof vary jointly. Each point "
     "carries three values per operand (dimension x): float operands are a fixed physically sensible "
     "SI triple expressed in the operand's unit and rounded to its dtype, integer operands are integers "
     "in their own unit, < 2**15. Oracle: closed forms in 50-digit arithmetic on the stored values "
@@ -58,6 +61,7 @@ DTYPES = ["float64", "float32", "int64", "int32"]
 
 T_UNITS = ["s", "ms", "us", "ns"]
 L_UNITS = ["m", "mm", "cm", "km", "angstrom"]
+WL_UNITS = ["angstrom", "m", "mm", "cm", "km"]     # same set, default first
 E_UNITS = ["meV", "ueV", "eV", "J"]
 Q_UNITS = ["1/angstrom", "1/nm", "1/m", "1/cm"]
 A_UNITS = ["rad", "deg"]
@@ -75,12 +79,12 @@ ROLES = {
     "L1": (L_UNITS, "m", ["20.0", "32.5", "11.25"]),
     "L2": (L_UNITS, "m", ["3.0", "2.25", "4.5"]),
     "distance": (L_UNITS, "m", ["6.5", "18.0", "77.0"]),
-    "wavelength": (L_UNITS, "angstrom", ["1.8e-10", "4.2e-10", "0.9e-10"]),
+    "wavelength": (WL_UNITS, "angstrom", ["1.8e-10", "4.2e-10", "0.9e-10"]),
     "energy": (E_UNITS, "meV", [_MEV * 20, _MEV * mp.mpf("7.5"), _MEV * 55]),
     "Q": (Q_UNITS, "1/angstrom", ["1.25e10", "3.5e10", "0.4e10"]),
     "two_theta": (A_UNITS, "rad", ["0.31", "1.23", "2.74"]),
     # long wavelengths so that the gravity drop is not negligible
-    "wavelength_g": (L_UNITS, "angstrom", ["9.5e-10", "14.0e-10", "21.5e-10"]),
+    "wavelength_g": (WL_UNITS, "angstrom", ["9.5e-10", "14.0e-10", "21.5e-10"]),
 }
 INT_HI = {"rad": 3, "deg": 179}
 
@@ -336,7 +340,7 @@ def _scalar_cases(kernels, tier, seed, unit_override=None, dtype_override=None, 
         n = _grid_size(axes_of[k])
         if tier == "quick" and n > cap:
             rng = random.Random(seed * 1000003 + kpos)      # pure function of the seed
-            idxs = sorted(rng.sample(range(n), cap))
+            idxs = sorted({0, *rng.sample(range(1, n), cap - 1)})   # 0 = first choice on every axis
         else:
             idxs = range(n)
         keys.extend((k, i) for i in idxs)
@@ -365,7 +369,7 @@ def enum_time_at_sample(tier, seed):
 def enum_time_at_sample_wl_unit(tier, seed):
     return _scalar_cases(
         ["time_at_sample_from_tof"], tier, seed,
-        unit_override={"time_at_sample_from_tof": {"wavelength": [u for u in L_UNITS if u != "angstrom"]}},
+        unit_override={"time_at_sample_from_tof": {"wavelength": [u for u in WL_UNITS if u != "angstrom"]}},
         cap=600)
 
 
@@ -394,7 +398,7 @@ def _gravity_axes(wl_dtypes):
         ("incident_beam", BEAM_UNITS),
         ("scattered_beam", BEAM_UNITS),
         ("gravity", list(G_UNITS)),
-        ("wavelength", L_UNITS),
+        ("wavelength", WL_UNITS),
         ("wl_dtype", list(wl_dtypes)),
     ]
 
@@ -426,14 +430,14 @@ def _gravity_cases(wl_dtypes, tier, seed, cap):
     for a in axes:
         n *= len(a[1])
     if tier == "quick" and n > cap:
-        idxs = sorted(random.Random(seed * 1000003 + 77).sample(range(n), cap))
+        idxs = sorted({0, *random.Random(seed * 1000003 + 77).sample(range(1, n), cap - 1)})
     else:
         idxs = range(n)
     return LazyCases(list(idxs), lambda i: _build_gravity(axes, i))
 
 
 def enum_gravity(tier, seed):
-    return _gravity_cases(["float64", "float32"], tier, seed, 4000)
+    return _gravity_cases(["float64", "float32"], tier, seed, 2000)
 
 
 def enum_gravity_int(tier, seed):
@@ -457,15 +461,16 @@ DEFAULT_UNIT.update({"incident_beam": "m", "scattered_beam": "m", "gravity": "m/
 def _labels(case):
     labs = ["kernel:" + case["kernel"]]
     deviations = 0
+    nondefault = 0
     for name, op in case["ops"].items():
-        labs.append(f"{name}:{op['unit']}")
         if "dtype" in op:
             labs.append(f"{name}:{op['dtype']}")
             if op["dtype"] != "float64":
                 deviations += 1
         if op["unit"] != DEFAULT_UNIT[name]:
-            deviations += 1
-    return labs, deviations
+            nondefault += 1
+    labs.append(f"non-default-units:{nondefault}")
+    return labs, deviations + nondefault
 
 
 def _out_factor(unit):
@@ -547,7 +552,7 @@ def check_point(case):
     # --- dtype
     want = _expected_dtype(spec, ops)
     if spec["plain"] and want == "float32":
-        labs.append("dtype:see-plain_f32_dtype")
+        labs.append("dtype:no-documented-float32-contract")
     elif str(got.dtype) != want:
         raise Violation(
             "dtype", f"{kernel}: result dtype {got.dtype}, contract says {want} "
@@ -669,7 +674,9 @@ def _default_unit_ops(ops):
                                                     for v in vec] for vec in ops["scattered_beam"]["values"]]},
         "gravity": {"unit": "m/s^2", "values": [conv(v, G_UNITS[ops["gravity"]["unit"]])
                                                 for v in ops["gravity"]["values"]]},
-        "wavelength": {"unit": "angstrom", "dtype": wl["dtype"], "values": wvals},
+        # an integer wavelength need not be an integer in angstrom: the double it stands for is used
+        "wavelength": {"unit": "angstrom", "values": wvals,
+                       "dtype": wl["dtype"] if wl["dtype"].startswith("float") else "float64"},
     }
 
 
@@ -775,19 +782,19 @@ MATCHERS = {
 
 FACETS = [
     Facet("elastic", check_point, enumerate=enum_elastic, exhaustive_in=("quick", "thorough"),
-          quick=(4, 0), thorough=(16, 0), min_nontrivial=0.3,
+          quick=(3, 0), thorough=(16, 0), min_nontrivial=0.3,
           doc="9 elastic kernels: full unit x dtype grid; value vs closed form, output unit, dtype"),
     Facet("inelastic", check_point, enumerate=enum_inelastic, exhaustive_in=("thorough",),
-          quick=(6, 0), thorough=(16, 0), min_nontrivial=0.3,
+          quick=(4, 0), thorough=(16, 0), min_nontrivial=0.3,
           doc="direct/indirect energy transfer: unit x dtype grid (102400 points each)"),
     Facet("time_at_sample", check_point, enumerate=enum_time_at_sample,
-          exhaustive_in=("quick", "thorough"), quick=(2, 0), thorough=(16, 0), min_nontrivial=0.3,
+          exhaustive_in=("quick", "thorough"), quick=(1, 0), thorough=(16, 0), min_nontrivial=0.3,
           doc="time_at_sample_from_tof, wavelength in angstrom; pulse_time/tof joint"),
     Facet("chopper", check_point, enumerate=enum_chopper, exhaustive_in=("thorough",),
           quick=(2, 0), thorough=(16, 0), min_nontrivial=0.3,
           doc="wavelength_to_inverse_velocity, propagate_times"),
-    Facet("gravity", check_gravity, enumerate=enum_gravity, exhaustive_in=("quick", "thorough"),
-          quick=(2, 0), thorough=(16, 0), min_nontrivial=0.3,
+    Facet("gravity", check_gravity, enumerate=enum_gravity, exhaustive_in=("thorough",),
+          quick=(3, 0), thorough=(16, 0), min_nontrivial=0.3,
           doc="_drop_due_to_gravity through scattering_angles_with_gravity (both paths) and "
               "scattering_angle_in_yz_plane; float wavelength"),
     Facet("gravity_int_wavelength", check_gravity, enumerate=enum_gravity_int,
@@ -796,11 +803,12 @@ FACETS = [
     Facet("time_at_sample_wavelength_unit", check_point, enumerate=enum_time_at_sample_wl_unit,
           exhaustive_in=("thorough",), quick=(1, 0), thorough=(16, 0), min_nontrivial=0.3,
           doc="time_at_sample_from_tof with wavelength in mm..km"),
-    Facet("plain_f32_dtype", check_plain_dtype, enumerate=enum_plain_f32,
-          exhaustive_in=("thorough",), quick=(1, 0), thorough=(16, 0), min_nontrivial=0.3,
-          doc="single-precision data operand gives single-precision result, for the kernels without "
-              "float32 selection (time_at_sample_from_tof, propagate_times, "
-              "wavelength_to_inverse_velocity)"),
+    # NOTE: a facet "plain_f32_dtype" (float32 data operand => float32 result for
+    # time_at_sample_from_tof, propagate_times, wavelength_to_inverse_velocity) was written and then
+    # withdrawn as a false alarm: these three functions promote to float64 on the unchanged tree, but
+    # the package documents (docstrings/tests) a float32 contract only for the elastic, inelastic and
+    # gravity kernels, and C07 is about the *documented* dtype contract. See DESIGN.md, "False alarms
+    # corrected". check_plain_dtype is kept for reference but is not part of the check.
 ]
 
 
